@@ -64,6 +64,9 @@ pub struct SrvCase {
     pub jumps: bool,
     /// temporary names come from a space of three (collisions, exhaustion reachable)
     pub small_names: bool,
+    /// crash + restart of the server process enabled (at most two per world)
+    #[serde(default)]
+    pub restarts: bool,
 }
 
 pub struct Service {
@@ -167,11 +170,26 @@ impl Service {
                 let r = match rng.below(24) {
                     0 => Rq::Register { name: acct(rng), pw: pw(rng) },
                     1 | 2 => Rq::Login { name: acct(rng), pw: pw(rng) },
-                    3 => Rq::Login { name: other_acct(rng), pw: pw(rng) },
+                    3 => {
+                        if rng.chance(1, 3) {
+                            // somebody else's (or nobody's) temporary account name
+                            let k = rng.below(3);
+                            Rq::Login { name: if small_names { format!("tmp-{k}") } else { format!("tmp-{:04}", k + 1) }, pw: pw(rng) }
+                        } else {
+                            Rq::Login { name: other_acct(rng), pw: pw(rng) }
+                        }
+                    }
                     4 => Rq::Logout,
                     5 => Rq::Info,
                     6 | 7 => Rq::Update { name: acct(rng), pw: pw(rng) },
                     8 => Rq::DeleteAccount,
+                    9 if contended && rng.chance(1, 2) => {
+                        if rng.chance(1, 2) {
+                            Rq::DeleteAccount
+                        } else {
+                            Rq::Register { name: acct(rng), pw: pw(rng) }
+                        }
+                    }
                     9..=12 => Rq::Add {
                         pname: if rng.chance(1, 6) { String::new() } else { pnames[rng.below(2) as usize].into() },
                         code: if rng.chance(1, 4) { common_code(rng) } else { gen_code(rng, c, 3, true) },
@@ -188,7 +206,31 @@ impl Service {
             }
             clients.push(script);
         }
-        SrvCase { clients, faults, jumps, small_names }
+        SrvCase { clients, faults, jumps, small_names, restarts: rng.chance(1, 5) }
+    }
+
+    /// More than ten statements (string-encoded positions "10", "11" sort before "2"): only
+    /// the parse result and the grounded strategy are judged for these (the brute-force oracle
+    /// for complete / stable is exponential in n).
+    fn big_code(rng: &mut Rng, c: usize) -> Code {
+        use refsem::F;
+        let n = rng.range(11, 12) as usize;
+        let names: Vec<String> = (0..n).map(|i| format!("{}{}", marker(c), i)).collect();
+        let acs = (0..n)
+            .map(|_| {
+                let a = F::Atom(rng.below(n as u64) as usize);
+                let b = F::Atom(rng.below(n as u64) as usize);
+                match rng.below(6) {
+                    0 => F::Top,
+                    1 => F::Bot,
+                    2 => F::Not(Box::new(a)),
+                    3 => F::And(Box::new(a), Box::new(b)),
+                    4 => F::Or(Box::new(a), Box::new(F::Not(Box::new(b)))),
+                    _ => a,
+                }
+            })
+            .collect();
+        Code::Adf(AdfSpec { names, acs, ac_order: (0..n).collect() })
     }
 
     fn gen_c16(&self, rng: &mut Rng, thorough: bool) -> SrvCase {
@@ -205,11 +247,15 @@ impl Service {
             let pnames = ["p1", "p2"];
             let len = rng.range(4, if thorough { 16 } else { 12 }) as usize;
             let first = pnames[rng.below(2) as usize];
+            let big = rng.chance(1, 12);
             script.push(Rq::Add {
                 pname: first.into(),
-                code: gen_code(rng, c, if thorough { 5 } else { 4 }, true),
+                code: if big { Self::big_code(rng, c) } else { gen_code(rng, c, if thorough { 5 } else { 4 }, true) },
                 parsing: if rng.chance(1, 2) { "Naive".into() } else { "Hybrid".into() },
             });
+            if big {
+                script.push(Rq::Solve { pname: first.into(), strategy: "Ground".into() });
+            }
             while script.len() < len {
                 let pn = if rng.chance(3, 4) { first } else { pnames[rng.below(2) as usize] };
                 let r = match rng.below(16) {
@@ -228,7 +274,7 @@ impl Service {
             }
             clients.push(script);
         }
-        SrvCase { clients, faults, jumps, small_names: false }
+        SrvCase { clients, faults, jumps, small_names: false, restarts: rng.chance(1, 5) }
     }
 }
 
@@ -246,6 +292,13 @@ pub struct ClientSt {
     pub model: BTreeMap<String, BTreeMap<String, String>>,
     /// model is exact (no fault hit one of this client's calls so far)
     pub exact: bool,
+    /// the cookie in the jar was issued by the incarnation that is alive
+    pub cookie_valid: bool,
+    /// credentials of the last acknowledged login, to log in again after a restart
+    pub creds: Option<(String, String)>,
+    pub relogin_pending: bool,
+    /// the request in flight (scripted, or the synthetic re-login)
+    pub current: Option<Rq>,
 }
 
 #[derive(Clone, Debug)]
@@ -293,6 +346,7 @@ pub struct Run<'a> {
     pub solves_acked: Vec<(usize, String, String, u64)>,
     pub o16: oracle16::State,
     /// schedule as (actor, action) records, for the solo re-execution (O5)
+    pub had_restart: bool,
     pub actions: Vec<crate::solo::ActRec>,
     /// per client: (request ordinal, status, canonical body) of every scripted request
     pub obs: Vec<crate::solo::Obs>,
@@ -374,6 +428,10 @@ impl<'a> Run<'a> {
     // ---- database events ---------------------------------------------------------------
     fn process_events(&mut self) {
         for ev in mongodb::sim::take_events() {
+            if ev.actor == "dead-incarnation" {
+                self.stats.inc("db_calls_of_dead_incarnation_failed");
+                continue;
+            }
             self.log.str(ev.op).str(&ev.coll).str(ev.outcome).u64(ev.touched.len() as u64).u64(ev.read.len() as u64);
             self.stats.inc(&format!("db_{}_{}", ev.op, ev.coll));
             if ev.outcome.starts_with("fault") {
@@ -529,10 +587,11 @@ impl<'a> Run<'a> {
         self.cl[c].busy = false;
         if let Some(ck) = &resp.cookie {
             self.cl[c].jar = ck.clone();
+            self.cl[c].cookie_valid = ck.is_some();
         }
         self.log.u64(c as u64).u64(resp.status as u64).str(&canonical_body(&resp.body));
         self.stats.inc(&format!("resp_{}", resp.status));
-        let req_no_obs: usize = tag.trim_end_matches("+ck").split('#').nth(1).and_then(|x| x.parse().ok()).unwrap_or(0);
+        let req_no_obs: usize = tag.trim_end_matches("+ck").split('#').nth(1).and_then(|x| x.trim_end_matches('r').parse().ok()).unwrap_or(0);
         self.obs[c].push(crate::solo::observe(req_no_obs, resp.status, &resp.body));
         let had_cookie = tag.contains("+ck");
         // O1: no foreign marker in any response
@@ -583,12 +642,14 @@ impl<'a> Run<'a> {
                 }
                 if ok {
                     self.cl[c].acct = Some(name.clone());
+                    self.cl[c].creds = Some((name.clone(), pw.clone()));
                     self.stats.inc("logins_acknowledged");
                 }
             }
             Rq::Logout => {
                 if ok {
                     self.cl[c].acct = None;
+                    self.cl[c].creds = None;
                 }
             }
             Rq::Info => {
@@ -604,8 +665,9 @@ impl<'a> Run<'a> {
                     }
                 }
             }
-            Rq::Update { name, .. } => {
+            Rq::Update { name, pw } => {
                 if ok {
+                    self.cl[c].creds = Some((name.clone(), pw.clone()));
                     if let Some(old) = self.cl[c].acct.clone() {
                         if old != *name {
                             let m = self.cl[c].model.remove(&old).unwrap_or_default();
@@ -622,6 +684,7 @@ impl<'a> Run<'a> {
                     if let Some(a) = self.cl[c].acct.take() {
                         self.cl[c].model.remove(&a);
                     }
+                    self.cl[c].creds = None;
                     self.stats.inc("accounts_deleted");
                 }
             }
@@ -863,6 +926,7 @@ enum Act {
     Issue(usize),
     Release(u64),
     Jump,
+    Restart,
 }
 
 async fn run_world(svc_cfg: &Service, case: &SrvCase, dec: Decisions, seed_for_key: u64) -> RunResult {
@@ -907,6 +971,7 @@ async fn run_world(svc_cfg: &Service, case: &SrvCase, dec: Decisions, seed_for_k
         interleaved_handlers: 0,
         solves_acked: Vec::new(),
         o16: oracle16::State::default(),
+        had_restart: false,
         actions: Vec::new(),
         obs: (0..n).map(|_| Vec::new()).collect(),
     };
@@ -921,6 +986,7 @@ async fn run_world(svc_cfg: &Service, case: &SrvCase, dec: Decisions, seed_for_k
         }
     }
     let mut steps = 0u64;
+    let mut restarts_done = 0u32;
     let trace = std::env::var("SRVSIM_TRACE").is_ok();
     let mut last_gate_client: Option<usize> = None;
     loop {
@@ -950,6 +1016,9 @@ async fn run_world(svc_cfg: &Service, case: &SrvCase, dec: Decisions, seed_for_k
         }
         if case.jumps && run.w.tasks.values().any(|t| t.cont == Cont::NotYet && !t.timed_out && !t.ended) {
             acts.push((Act::Jump, 1));
+        }
+        if case.restarts && restarts_done < 2 && steps > 3 && !acts.is_empty() {
+            acts.push((Act::Restart, 1));
         }
         if acts.is_empty() {
             break;
@@ -1012,10 +1081,23 @@ async fn run_world(svc_cfg: &Service, case: &SrvCase, dec: Decisions, seed_for_k
                 run.w.release_gate(id, outcome, &actor).await;
             }
             Act::Issue(c) => {
-                let rq = case.clients[c][run.cl[c].pos].clone();
-                let tag = format!("c{c}#{}{}", run.cl[c].pos, if run.cl[c].jar.is_some() { "+ck" } else { "" });
+                // after a restart a client that knows its credentials logs in again first
+                let synthetic = run.cl[c].relogin_pending && run.cl[c].creds.is_some();
+                let rq = if synthetic {
+                    let (name, pw) = run.cl[c].creds.clone().unwrap();
+                    run.cl[c].relogin_pending = false;
+                    run.stats.inc("relogins_after_restart");
+                    Rq::Login { name, pw }
+                } else {
+                    case.clients[c][run.cl[c].pos].clone()
+                };
+                let valid = run.cl[c].jar.is_some() && run.cl[c].cookie_valid;
+                let tag = format!("c{c}#{}{}{}", if synthetic { format!("{}r", run.cl[c].pos) } else { run.cl[c].pos.to_string() }, if valid { "+ck" } else { "" }, "");
                 let req = run.build_request(c, &rq);
-                run.cl[c].pos += 1;
+                if !synthetic {
+                    run.cl[c].pos += 1;
+                }
+                run.cl[c].current = Some(rq.clone());
                 run.cl[c].busy = true;
                 run.actions.push(crate::solo::ActRec { client: c, kind: crate::solo::ActKind::Issue });
                 run.log.str("issue").u64(c as u64);
@@ -1041,6 +1123,28 @@ async fn run_world(svc_cfg: &Service, case: &SrvCase, dec: Decisions, seed_for_k
                     run.stats.inc("probe_closure_panicked");
                 }
             }
+            Act::Restart => {
+                restarts_done += 1;
+                run.log.str("restart");
+                run.stats.inc("fault_server_restart_fired");
+                let lost: Vec<usize> = run.w.inflight.iter().map(|f| f.client).collect();
+                let parked_now = blocking::parked().len() as u64;
+                run.stats.add("tasks_in_flight_at_restart", parked_now);
+                run.w.restart(seed_for_key).await;
+                for c in 0..n {
+                    if lost.contains(&c) {
+                        run.cl[c].busy = false;
+                        run.cl[c].exact = false;
+                        run.cl[c].current = None;
+                        run.stats.inc("requests_lost_in_restart");
+                    }
+                    run.cl[c].acct = None;
+                    run.cl[c].cookie_valid = false;
+                    run.cl[c].relogin_pending = run.cl[c].creds.is_some();
+                }
+                run.login_found.clear();
+                run.had_restart = true;
+            }
             Act::Jump => {
                 run.actions.push(crate::solo::ActRec { client: usize::MAX, kind: crate::solo::ActKind::Jump });
                 run.log.str("jump");
@@ -1052,8 +1156,8 @@ async fn run_world(svc_cfg: &Service, case: &SrvCase, dec: Decisions, seed_for_k
         // observe
         run.process_events();
         for (c, tag, resp) in run.w.take_completed() {
-            let req_no: usize = tag.trim_end_matches("+ck").split('#').nth(1).and_then(|x| x.parse().ok()).unwrap_or(0);
-            let rq = case.clients[c][req_no].clone();
+            let req_no: usize = tag.trim_end_matches("+ck").trim_end_matches('r').split('#').nth(1).and_then(|x| x.trim_end_matches('r').parse().ok()).unwrap_or(0);
+            let rq = run.cl[c].current.take().unwrap_or_else(|| case.clients[c][req_no.min(case.clients[c].len().saturating_sub(1))].clone());
             if trace {
                 eprintln!("    <- {tag} {rq:?}: {} {}", resp.status, clip(&resp.body));
             }
@@ -1071,13 +1175,14 @@ async fn run_world(svc_cfg: &Service, case: &SrvCase, dec: Decisions, seed_for_k
         final_phase(&mut run).await;
     }
     run.stats.add("steps", steps);
+    run.stats.add("db_calls_of_dead_incarnation_failed", mongodb::sim::dead_calls());
     run.stats.add("simulated_ms", run.w.now_ms);
     run.stats.add("steps_with_two_requests_in_flight", run.concurrent_steps);
     run.stats.add("handler_interleavings_between_db_calls", run.interleaved_handlers);
     run.w.teardown().await;
     names::sim_install(None);
     // O5: every client again, alone, under the projection of the same schedule
-    if svc_cfg.name == "isolation" && !case.small_names && run.violation.is_none() && run.w.harness_error.is_none() && run.w.hung_task.is_none() && seed_for_key % 2 == 0 {
+    if svc_cfg.name == "isolation" && !case.small_names && !run.had_restart && run.violation.is_none() && run.w.harness_error.is_none() && run.w.hung_task.is_none() && seed_for_key % 2 == 0 {
         for c in 0..n {
             if case.clients[c].is_empty() {
                 continue;
@@ -1139,7 +1244,7 @@ async fn run_world(svc_cfg: &Service, case: &SrvCase, dec: Decisions, seed_for_k
 async fn final_phase(run: &mut Run<'_>) {
     let n = run.cl.len();
     for c in 0..n {
-        if run.cl[c].jar.is_none() {
+        if run.cl[c].jar.is_none() || !run.cl[c].cookie_valid {
             continue;
         }
         let acct = run.cl[c].acct.clone().unwrap_or_default();
@@ -1279,6 +1384,11 @@ impl Service {
                     out.push(e);
                 }
             }
+        }
+        if c.restarts {
+            let mut d = c.clone();
+            d.restarts = false;
+            out.push(d);
         }
         for (flag, _) in [("faults", 0), ("jumps", 1), ("small", 2)] {
             let mut d = c.clone();
